@@ -1,8 +1,221 @@
-import PestModel.Model.Views
-/-! # C04 — placeholder until the proofs land. -/
-namespace PestModel.C04
-open PestModel.Views
+import PestModel.Model.ViewsSpec
+import PestModel.Lemmas.Views
+/-!
+# C04 — … every Pairs view agrees with the one tree (part 1: views over a well-formed queue)
 
-theorem smoke : (build [.node 1 0 3 none [.node 2 1 2 none []]]).length = 4 := by decide
+Property theorems only; helper lemmas in `PestModel/Lemmas/Views*.lean`.
+`Encodes q a b trees` says the window `[a, b)` of the token queue is the encoding of `trees`;
+`PairObs q i t` says the `Pair` at index `i` shows exactly the tree `t` (rule, span, tag, children).
+-/
+namespace PestModel.C04
+open PestModel.Views PestModel.LineCol
+open PestModel.PS (QTok)
+
+/-- `PairsBuilder::build` produces the encoding of the forest it was given (`forest (build t) = t`). -/
+theorem build_encodes (forest : List Tree) : Encodes (build forest) 0 (build forest).length forest := by
+  exact encodes_iff.2 (build_layout forest)
+
+/-- `pairs::new` counts exactly the top-level trees of the window (and does not panic). -/
+theorem pairs_new (q : List QTok) (a b : Nat) (trees : List Tree) (h : Encodes q a b trees) :
+    Pairs.new q a b = some ⟨a, b, trees.length⟩ := by
+  exact pairs_new_of_layout (encodes_iff.1 h)
+
+/-- An exhausted view: `next`, `next_back`, `peek` give nothing, `as_str` is empty. -/
+theorem pairs_nil (q : List QTok) (input : Str) (v : Pairs) (h : PairsRep q v []) :
+    v.next q = some (none, v) ∧ v.nextBack q = some (none, v) ∧ v.peek = none ∧ v.asStr q input = some [] := by
+  have hl := encodes_iff.1 h.1
+  have he : v.start = v.stop := hl.nil_eq
+  refine ⟨?_, ?_, ?_, ?_⟩
+  · simp [Pairs.next, he]
+  · simp [Pairs.nextBack, he]
+  · simp [Pairs.peek, he]
+  · simp [Pairs.asStr, he]
+
+/-- `next`/`peek` yield the first tree and leave the view standing for the rest. -/
+theorem pairs_next (q : List QTok) (v : Pairs) (t : Tree) (ts : List Tree) (h : PairsRep q v (t :: ts)) :
+    ∃ v', v.next q = some (some v.start, v') ∧ PairsRep q v' ts ∧ v.peek = some v.start ∧ PairObs q v.start t := by
+  obtain ⟨hl, hc⟩ := h
+  have hl := encodes_iff.1 hl
+  obtain ⟨e, h1, h2, hk, hr, hs, hlt, hlt'⟩ := hl.cons_inv
+  have hlt2 : v.start < v.stop := by omega
+  have hc0 : v.count ≠ 0 := by simp [hc]
+  refine ⟨{ v with start := e + 1, count := v.count - 1 }, ?_, ⟨encodes_iff.2 hr, ?_⟩, ?_, pairObs_of h1 h2 hk⟩
+  · simp [Pairs.next, hlt2, pairEnd_of h1, hc0]
+  · simp [hc]
+  · simp [Pairs.peek, hlt2]
+
+/-- `next_back` yields the last tree and leaves the view standing for the rest. -/
+theorem pairs_nextBack (q : List QTok) (v : Pairs) (t : Tree) (ts : List Tree) (h : PairsRep q v (ts ++ [t])) :
+    ∃ i v', v.nextBack q = some (some i, v') ∧ PairsRep q v' ts ∧ PairObs q i t := by
+  obtain ⟨hl, hc⟩ := h
+  have hl := encodes_iff.1 hl
+  obtain ⟨m, hm1, hm2⟩ := hl.split
+  obtain ⟨h1, h2, hk, hlt, hs⟩ := hm2.single_inv
+  have hlt2 : ¬ v.stop ≤ v.start := by have := hm1.le; omega
+  have hc0 : v.count ≠ 0 := by simp [hc]
+  refine ⟨m, { v with stop := m, count := v.count - 1 }, ?_, ⟨encodes_iff.2 hm1, ?_⟩, pairObs_of h1 h2 hk⟩
+  · simp [Pairs.nextBack, hlt2, h2, hc0]
+  · simp [hc]
+
+/-- `into_inner` stands for the children, `Pairs::single` for the one tree, `Pair::tokens` is the
+window of the tree. -/
+theorem pair_views (q : List QTok) (i : Nat) (t : Tree) (h : PairObs q i t) :
+    (∃ v, pairInner q i = some v ∧ PairsRep q v t.children) ∧
+    (∃ v, pairsSingle q i = some v ∧ PairsRep q v [t]) ∧
+    (∃ a b, pairTokens q i = some (a, b) ∧ Encodes q a b [t]) := by
+  obtain ⟨_, _, _, e, he, hk, hs⟩ := h
+  refine ⟨⟨⟨i + 1, e, t.children.length⟩, ?_, hk, rfl⟩, ⟨⟨i, e + 1, 1⟩, ?_, hs, rfl⟩, i, e + 1, ?_, hs⟩
+  · simp [pairInner, he, pairs_new_of_layout (encodes_iff.1 hk)]
+  · simp [pairsSingle, he, pairs_new_of_layout (encodes_iff.1 hs)]
+  · simp [pairTokens, he]
+
+/-- **Forward and backward iteration in any interleaving**: the pairs produced are the trees of
+the forest taken from the front / the back, and `len()` is the number remaining after each step. -/
+theorem pairs_interleave (q : List QTok) (v : Pairs) (trees : List Tree) (ops : List Bool)
+    (h : PairsRep q v trees) :
+    ∃ res, pairsRun q v ops = some res ∧ ObsMatch q res (dequeRun trees ops) := by
+  induction ops generalizing v trees with
+  | nil => exact ⟨[], by simp [pairsRun], by simp [dequeRun, ObsMatch]⟩
+  | cons op ops ih =>
+    cases trees with
+    | nil =>
+      obtain ⟨h1, h2, _, _⟩ := pairs_nil q [] v h
+      obtain ⟨res, hr, hm⟩ := ih v [] h
+      have hc : v.count = 0 := h.2
+      refine ⟨(none, v.count) :: res, ?_, ?_⟩
+      · cases op <;> simp [pairsRun, h1, h2, hr]
+      · simp [dequeRun, ObsMatch, hm, hc]
+    | cons t ts =>
+      cases op with
+      | true =>
+        obtain ⟨v', hn, hrep, _, hobs⟩ := pairs_next q v t ts h
+        obtain ⟨res, hr, hm⟩ := ih v' ts hrep
+        refine ⟨(some v.start, v'.count) :: res, by simp [pairsRun, hn, hr], ?_⟩
+        have := hrep.2
+        simp [dequeRun, ObsMatch, hobs, hm, this]
+      | false =>
+        have hne : t :: ts ≠ [] := by simp
+        have hdec := List.dropLast_concat_getLast hne
+        obtain ⟨i, v', hn, hrep, hobs⟩ := pairs_nextBack q v ((t :: ts).getLast hne) (t :: ts).dropLast
+          (by rw [hdec]; exact h)
+        obtain ⟨res, hr, hm⟩ := ih v' _ hrep
+        refine ⟨(some i, v'.count) :: res, by simp [pairsRun, hn, hr], ?_⟩
+        have hc := hrep.2
+        simp only [List.length_dropLast, List.length_cons, Nat.add_sub_cancel] at hc
+        simp only [dequeRun, List.getLast?_eq_some_getLast hne, ObsMatch]
+        exact ⟨hobs, hc, hm⟩
+
+/-- `flatten` in any interleaving of `next`/`next_back`: the pairs produced are the nodes of the
+forest in pre-order taken from the front / the back; `len()` is the number remaining. -/
+theorem flat_interleave (q : List QTok) (a b : Nat) (trees : List Tree) (ops : List Bool)
+    (h : Encodes q a b trees) :
+    ∃ res, flatRun q ⟨a, b⟩ ops = some res ∧ ObsMatch q res (dequeRun (preorderList trees) ops) := by
+  exact flatRun_of_seg ops a b _ (flat_of_layout (encodes_iff.1 h))
+
+/-- `tokens` in any interleaving: exactly the token stream of the forest from the front / the back. -/
+theorem tokens_interleave (q : List QTok) (a b : Nat) (trees : List Tree) (ops : List Bool)
+    (h : Encodes q a b trees) :
+    toksRun q a b ops = some (dequeRun (toksList trees) ops) := by
+  have hl := encodes_iff.1 h
+  obtain ⟨hseq, hlen⟩ := toks_of_layout hl
+  exact toksRun_of_seq ops a b _ hseq (by rw [hlen]; exact hl.size)
+
+/-- `as_str` of a non-empty view spans from the first tree's start to the last tree's end;
+`concat` is the concatenation of the trees' texts; `Display` lists them. -/
+theorem pairs_strings (q : List QTok) (input : Str) (v : Pairs) (t : Tree) (ts : List Tree)
+    (h : PairsRep q v (t :: ts)) (strs : List Str)
+    (hs : (t :: ts).mapM (strOf input) = some strs) :
+    v.asStr q input = slice? input t.start (((t :: ts).getLast?.getD t).stop) ∧
+    v.concat q input = some strs.flatten ∧ v.display q input = some (bracket strs) := by
+  obtain ⟨hl, hc⟩ := h
+  have hl := encodes_iff.1 hl
+  refine ⟨?_, ?_, ?_⟩
+  · obtain ⟨e, h1, _, _, _, _, hlt, hlt'⟩ := hl.cons_inv
+    have hne : t :: ts ≠ [] := by simp
+    have hl' := hl
+    rw [← List.dropLast_concat_getLast hne] at hl'
+    obtain ⟨m, hm1, hm2⟩ := hl'.split
+    obtain ⟨_, h2, _, _, _⟩ := hm2.single_inv
+    have hlt2 : v.start < v.stop := by omega
+    simp [Pairs.asStr, hlt2, posAt_start h1, posAt_end h2, List.getLast?_eq_some_getLast hne]
+  · simp [Pairs.concat, pairsList_of_layout' hl, mapM_pairStr hl, hs]
+  · simp [Pairs.display, pairsList_of_layout' hl, mapM_pairStr hl, hs]
+
+/-
+`pairs_render` AS ORIGINALLY STATED IS FALSE (third conjunct, JSON):
+
+    theorem pairs_render (q : List QTok) (input : Str) (v : Pairs) (trees : List Tree) (h : PairsRep q v trees) :
+        v.displayAlt q = some (bracket (altOfList trees)) ∧
+        v.debug q input = (debugOfList input trees).map bracket ∧
+        v.json q input = jsonOfForest input 0 trees
+
+Counterexample (checked with `#eval`): `input := []`,
+`trees := [.node 0 5 3 none [.node 1 0 0 none []]]`, `q := build trees`
+(`= [.start 3 5, .start 2 0, .end_ 1 1 none 0, .end_ 0 0 none 3]`), `v := ⟨0, 4, 1⟩`.
+`PairsRep q v trees` holds, `Pairs.json q input v = none`, but `jsonOfForest input 0 trees = some "{\n  \"pos\": …"`.
+Reason: `jsonPair` (like the Rust serializer, which calls `as_str()` on every pair) slices the span
+of *every* node, whereas `jsonOfTree` only slices the spans of the leaves; a node with children whose
+own span cannot be sliced (`stop < start`, or an offset that is not a char boundary, e.g.
+`.node 0 0 1 none [.node 1 0 0 none []]` over `"é"`) makes the model return `none` (panic) while the
+tree-side function returns `some _`.  The model's fuel bounds are all sufficient.
+
+Corrected statements below: `pairs_render_partial` (the two conjuncts that hold unconditionally),
+`pairs_render` (all three, under the explicit hypothesis that every node's span can be sliced).
+-/
+
+/-- Alternate `Display` and `Debug` output are those of the tree (no side condition). -/
+theorem pairs_render_partial (q : List QTok) (input : Str) (v : Pairs) (trees : List Tree)
+    (h : PairsRep q v trees) :
+    v.displayAlt q = some (bracket (altOfList trees)) ∧
+    v.debug q input = (debugOfList input trees).map bracket := by
+  obtain ⟨hl, hc⟩ := h
+  have hl := encodes_iff.1 hl
+  have hsz := hl.size_le_length
+  constructor
+  · simp [Pairs.displayAlt, pairsList_of_layout' hl, altList_of_layout hl (4 * q.length + 8) (by omega)]
+  · have hd := debugList_of_layout (input := input) hl (4 * q.length + 8) (by omega)
+    cases hdl : debugOfList input trees <;>
+      simp [Pairs.debug, pairsList_of_layout' hl, hd, hdl]
+
+/-- Alternate `Display`, `Debug` and JSON output are those of the tree, provided the span of every
+node of the forest can be sliced out of the input (extra hypothesis `hsl`, see the comment above). -/
+theorem pairs_render (q : List QTok) (input : Str) (v : Pairs) (trees : List Tree) (h : PairsRep q v trees)
+    (hsl : ∀ t ∈ preorderList trees, (strOf input t).isSome) :
+    v.displayAlt q = some (bracket (altOfList trees)) ∧
+    v.debug q input = (debugOfList input trees).map bracket ∧
+    v.json q input = jsonOfForest input 0 trees := by
+  obtain ⟨h1, h2⟩ := pairs_render_partial q input v trees h
+  refine ⟨h1, h2, ?_⟩
+  have hl := encodes_iff.1 h.1
+  have hsz := hl.size_le_length
+  exact jsonPairs_of_list hl (4 * q.length + 7) 0 (jsonList_of_layout hl hsl _ _ (by omega))
+
+/-- JSON without side condition (soundness half): whenever `to_json` returns (does not panic), what
+it returns is the JSON of the tree. -/
+theorem pairs_json_sound (q : List QTok) (input : Str) (v : Pairs) (trees : List Tree) (h : PairsRep q v trees)
+    (s : Str) (hs : v.json q input = some s) : jsonOfForest input 0 trees = some s := by
+  have hl := encodes_iff.1 h.1
+  exact jsonPairs_sound_of_list hl (4 * q.length + 7) 0 (jsonList_sound hl _ _) s hs
+
+/-- `pairs_render` for forests whose spans nest inside the input (`nestedForest`, the shape every
+parse result has): all three renderers agree with the tree. -/
+theorem pairs_render_nested (q : List QTok) (input : Str) (v : Pairs) (trees : List Tree) (h : PairsRep q v trees)
+    (lo hi : Nat) (hn : nestedForest input lo hi trees = true) :
+    v.displayAlt q = some (bracket (altOfList trees)) ∧
+    v.debug q input = (debugOfList input trees).map bracket ∧
+    v.json q input = jsonOfForest input 0 trees :=
+  pairs_render q input v trees h (sliceable_of_nestedForest input lo hi trees hn)
+
+/-- Nesting: in a forest whose spans nest, each pair's span contains its children's and siblings do
+not overlap (unfolding of `nestedForest`, stated for use by clients). -/
+theorem nested_children (input : Str) (lo hi : Nat) (t : Tree) (ts : List Tree)
+    (h : nestedForest input lo hi (t :: ts) = true) :
+    lo ≤ t.start ∧ t.start ≤ t.stop ∧ t.stop ≤ hi ∧ nestedForest input t.start t.stop t.children = true ∧
+    nestedForest input t.stop hi ts = true := by
+  cases t with
+  | node r a b tag ks =>
+    simp only [nestedForest, nestedTree, Bool.and_eq_true, decide_eq_true_eq] at h
+    obtain ⟨⟨⟨⟨⟨⟨h1, h2⟩, h3⟩, _⟩, _⟩, h4⟩, h5⟩ := h
+    exact ⟨h1, h2, h3, h4, h5⟩
 
 end PestModel.C04
